@@ -256,7 +256,18 @@ func exec(kind string, in []string) []string {
 		if err == nil {
 			tags = finalTags(final)
 		}
-		return []string{f0, its, f2, rep, toks2, tags}
+		// tags of the document and of the rewritten document, for the tag-scanning model
+		rt := rawTags(s)
+		if ferr == nil {
+			if r2 := rawTags(filtered); r2 != "-" {
+				if rt == "-" {
+					rt = r2
+				} else {
+					rt += "|" + r2
+				}
+			}
+		}
+		return []string{f0, its, f2, rep, toks2, tags, "T1", rt}
 	case "msg":
 		return execMsg(in)
 	case "text":
